@@ -179,6 +179,26 @@ func main() {
 		}
 	}
 	gen(nil)
+	// malformed bodies: every 4-byte-aligned truncation of several well-formed bodies (single-event histories)
+	trunc := 0
+	for _, base := range []struct {
+		name string
+		body []byte
+	}{
+		{"rpc_result(unknown-id)", rpcsrv.ResultBody(int64(1600000000)<<32|0x7770, 5, rpcsrv.KObj, false)},
+		{"rpc_result(gzip)", rpcsrv.ResultBody(int64(1600000000)<<32|0x7770, 5, rpcsrv.KObj, true)},
+		{"new_session_created", w().U32(0x9ec20908).I64(1).I64(99).I64(31).B},
+		{"container(update,pong)", container(w().U32(rpcsrv.ResID).I32(903).B, w().U32(0x347773c5).I64(1).I64(8).B)},
+		{"bad_server_salt", w().U32(0xedab447b).I64(1).I32(1).I32(48).I64(31).B},
+		{"msgs_ack", w().U32(0x62d6b459).VecI64([]int64{1, 2}).B},
+	} {
+		for keep := 0; keep < len(base.body); keep += 4 {
+			b := append([]byte{}, base.body[:keep]...)
+			hists = append(hists, []ev{{name: fmt.Sprintf("truncated(%s,keep=%d)", base.name, keep), content: true, body: func(*sess.World) []byte { return b }}})
+			trunc++
+		}
+	}
+	run.Set("truncation_histories", trunc)
 	var scs []*sess.Scenario
 	allow := map[string]bool{}
 	for _, h := range hists {
